@@ -88,6 +88,30 @@ Definition strict_ok (must may : list f64) (c : cexpo) : bool :=
   forallb (fun p => Z.leb (want_bucket must s z false (fst p)) (snd p) && Z.leb (snd p) (want_bucket may s z false (fst p))) (e_pos e) &&
   forallb (fun p => Z.leb (want_bucket must s z true (fst p)) (snd p) && Z.leb (snd p) (want_bucket may s z true (fst p))) (e_neg e).
 
+(* Classic and native buckets of ONE exposition describe the same observations (also across resets): for a finite
+   positive classic bound b, everything the native side places at or below b (negative buckets, the zero bucket when
+   its threshold is at most b, positive buckets whose upper boundary is at most b) is counted by the classic
+   cumulative count, and nothing the native side places above b (NaN, +Inf, positive buckets whose lower boundary
+   is at least b) is. *)
+Definition classic_native_ok (bounds : list f64) (c : cexpo) : bool :=
+  let e := x c in
+  let s := e_schema e in
+  let rest := zsum (map snd (e_pos e)) + zsum (map snd (e_neg e)) + e_zc e in
+  let nanc := e_count e - rest in
+  match bounds with
+  | [] => true
+  | _ =>
+      forallb (fun bc =>
+        let b := fst bc in
+        if is_fin b && flt pzero b then
+          let below := (if fle (e_zt e) b then e_zc e else 0) + zsum (map snd (e_neg e)) +
+                       zsum (map snd (filter (fun p => Z.leb (fst p) (max_key s) && dy_le (exact_B s (fst p)) (dy_of b)) (e_pos e))) in
+          let above := nanc +
+                       zsum (map snd (filter (fun p => Z.ltb (max_key s) (fst p) || dy_le (dy_of b) (exact_B s (fst p - 1))) (e_pos e))) in
+          Z.leb below (snd bc) && Z.leb (snd bc) (e_count e - above)
+        else true) (combine bounds (x_classic c))
+  end.
+
 Definition check_hist (s : sx) : Z :=
   match s with
   | SL [SZ kind; bounds; obs; scr; final; SZ flags] =>
@@ -99,9 +123,10 @@ Definition check_hist (s : sx) : Z :=
             forallb (fun sc => let '(e, a, b) := sc in
                let must := if Z.eqb kind 2 then [] else map (fun o => fst (fst o)) (filter (fun o => Z.leb (snd o) a) obs) in
                let may := map (fun o => fst (fst o)) (filter (fun o => Z.ltb (snd (fst o)) b) obs) in
-               scrape_ok bounds must may e && strict_ok must may e) scr &&
+               scrape_ok bounds must may e && strict_ok must may e && classic_native_ok bounds e) scr &&
             (if Z.eqb kind 2 then scrape_ok bounds [] all final && strict_ok [] all final
-             else scrape_ok bounds all all final && strict_ok all all final) in
+             else scrape_ok bounds all all final && strict_ok all all final) &&
+            classic_native_ok bounds final in
           if ok then code_ok else code_spec_violation
       | _, _, _, _ => code_decode_error
       end
